@@ -159,7 +159,9 @@ fn lin_case2(m: &LinearModel, mut tags: Vec<String>, profile: u8) -> (Case, Opti
                         VariableType::NonNegativeReal(a, b) => a.is_infinite() || *b == f64::NEG_INFINITY,
                         VariableType::Real(a, b) => *a == f64::INFINITY || *b == f64::NEG_INFINITY,
                         _ => false });
-                    if matches!(m.optimization_type(), OptimizationType::Satisfy) && stage == "parse" {
+                    let solve_with_exp = matches!(m.optimization_type(), OptimizationType::Satisfy)
+                        && text.lines().next().map(|l| l.trim() != "solve").unwrap_or(false);
+                    if solve_with_exp && stage == "parse" {
                         c.sig = Some("solve-rendered-with-expression".into());
                     } else if m.constraints().is_empty() && stage == "parse" {
                         c.sig = Some("empty-constraint-section-rejected".into());
@@ -210,7 +212,8 @@ fn model_case(m: &Model, mut tags: Vec<String>, roundtrip: bool) -> Case {
                 }
                 Recompiled::Rejected(stage, msg) => {
                     tags.push(format!("reparse-rejected-{}", stage));
-                    if matches!(m.objective().objective_type, OptimizationType::Satisfy) && stage == "parse" {
+                    if matches!(m.objective().objective_type, OptimizationType::Satisfy) && stage == "parse"
+                        && text.lines().next().map(|l| l.trim() != "solve").unwrap_or(false) {
                         c.sig = Some("solve-rendered-with-expression".into());
                     }
                     c.impl_violation = Some(format!("rendering of a compiled model is rejected at {}: {}  <=  {}", stage, msg, text.replace('\n', " | ")));
